@@ -50,6 +50,8 @@ func TestVerif_C13_RawClientOffers(t *testing.T) {
 		"x-webkit-deflate-frame", "foo; bar=1, permessage-deflate; client_no_context_takeover",
 		"permessage-deflate; server_max_window_bits=10, permessage-deflate", "permessage-deflate; unknown_param=1", "PERMESSAGE-DEFLATE",
 		"permessage-deflate; server_max_window_bits=12; server_no_context_takeover, x-unknown",
+		`permessage-deflate; client_max_window_bits="10"`, `permessage-deflate; server_max_window_bits="12"; client_no_context_takeover`,
+		`x-quoted; p="a, permessage-deflate; b", permessage-deflate`, `x-quoted; p="a\"b"`,
 	}
 	sizes := []int{0, 10, 200, 70000}
 	reps := m.N(2, 20)
